@@ -1,4 +1,63 @@
 import Ptn.C12.Model
-/-! Property theorems for C12. Only property theorems and non-vacuity examples live here. -/
+import Ptn.C12.Lemmas
+import Mathlib.LinearAlgebra.Matrix.Rank
+/-! Property theorems for C12 (bond dimensions of TTNOs built from Hamiltonians).  Only property
+theorems and non-vacuity examples live here.
+
+Covered for every tree and every input: a single-term Hamiltonian gives bond dimension one on every
+edge; the uncompressed construction gives the number of terms; no exact factorisation across an edge
+can have fewer bond indices than the operator Schmidt rank (so the Schmidt rank is the minimum).
+Not covered (decided per input by the harness): that the symbolic-Gaussian-elimination construction
+reaches that minimum - it does not always (finding F-C12a). -/
 namespace Ptn.C12
+open Ptn.C01
+
+/-- A single-term Hamiltonian: the diagram has exactly one vertex on every edge of the tree, hence
+    the TTNO has bond dimension one on every edge - for every tree, every support, every coefficient. -/
+theorem single_term_bond_one (t : RTree) (tm : Term) :
+    singleBonds t tm = t.edgesBelow.map (·, 1) :=
+  bonds_eq 1 t _ (singleAt_over _ _ _ true t) (singleAt_bonds _ _ _ true t)
+
+/-- … and every bond listed is an edge of the tree, each exactly once (keys are the child ends). -/
+theorem single_term_bond_keys (t : RTree) (tm : Term) :
+    (singleBonds t tm).map Prod.fst = t.edgesBelow := by
+  rw [single_term_bond_one]
+  simp [Function.comp_def]
+
+/-- The uncompressed construction has one vertex per term on every edge (the worst case the
+    compressing methods start from). -/
+theorem base_bond_eq_terms (t : RTree) (terms : List Term) (bs : List (Nat × Nat))
+    (h : baseBonds t terms = some bs) : bs = t.edgesBelow.map (·, terms.length) := by
+  cases terms with
+  | nil => simp [baseBonds, baseDiagram] at h
+  | cons tm rest =>
+    simp only [baseBonds, baseDiagram, Option.map_some, Option.some.injEq] at h
+    subst h
+    have := fold_bonds t rest (singleTerm t tm) 1 (singleAt_over _ _ _ true t)
+      (singleAt_bonds _ _ _ true t)
+    have e : (tm :: rest).length = 1 + rest.length := by simp; omega
+    rw [e]
+    exact bonds_eq _ t _ this.1 this.2
+
+/-- L6.  Cutting an exact TTNO across an edge of bond dimension `r` writes the matricisation
+    `H : (operator index on one side) × (operator index on the other side)` of the Hamiltonian as a
+    product `L * R` through an `r`-dimensional index.  Hence `r ≥ rank H`, the operator Schmidt rank:
+    no exact representation has a smaller bond. -/
+theorem bond_ge_schmidt_rank {K : Type*} [Field K] {a b : Type*} [Fintype a] [Fintype b]
+    (r : ℕ) (H : Matrix a b K) (L : Matrix a (Fin r) K) (R : Matrix (Fin r) b K) (h : H = L * R) :
+    H.rank ≤ r := by
+  subst h
+  exact (Matrix.rank_mul_le_left L R).trans
+    ((Matrix.rank_le_card_width L).trans (Fintype.card_fin r).le)
+
+/-! ### Non-vacuity -/
+
+example : singleBonds exTree exT1 = [(2, 1), (1, 1), (3, 1)] := by decide +kernel
+example : baseBonds exTree [exT1, exT2, exT1] = some [(2, 3), (1, 3), (3, 3)] := by decide +kernel
+example : exTree.edgesBelow = [2, 1, 3] := by decide +kernel
+
+-- the bound of `bond_ge_schmidt_rank` is attained: the 2 × 2 identity has rank 2 and factors through 2
+example : (1 : Matrix (Fin 2) (Fin 2) ℚ) = (1 : Matrix (Fin 2) (Fin 2) ℚ) * 1 := by simp
+example : (1 : Matrix (Fin 2) (Fin 2) ℚ).rank = 2 := by simp
+
 end Ptn.C12
